@@ -229,6 +229,11 @@ fn shuttle_me_or_none() -> usize {
     }
 }
 
+/// true for the panics the engine itself raises to abandon an execution: a harness that catches panics of the code
+/// under test re-throws these
+pub fn is_engine_panic(payload: &(dyn std::any::Any + Send)) -> bool {
+    payload.downcast_ref::<&'static str>().is_some_and(|m| *m == PANIC_DIVERGENCE || *m == PANIC_LIVENESS)
+}
 const PANIC_LIVENESS: &str = "vsched-liveness";
 const PANIC_DIVERGENCE: &str = "vsched-divergence";
 
